@@ -12,6 +12,11 @@ CLAIMED = {
          "Trusts bytes.IndexByte/ToLower, regexp, index/suffixarray, sort as documented; the translation helper is checked by roles (LOOKUP)."),
 }
 
+ "C14": ("cachekey", "flag-to-payload dependence analysis (position-ordered taint over go/ast+go/types), typestate along go/cfg paths, error-handling idiom matching", "DESIGN.md 4/C14",
+         "Static decision of the structural clauses of cache transparency over all 19 cached commands (which have no tests): every option read by a command is in the cache key (KEY-1..4), digest discipline and rewind in TryCache (KEY-5), replay only after a valid open (REPLAY), the tee writes the same bytes to cache and output (TEE), and a failed run cannot commit an entry (COMMIT). Does not decide byte equality of runs.",
+         "Trusts encoding/json to encode distinct option values distinctly, hash.Hash.Write never failing, and go/cfg's model of control flow; commands are recognised as the functions of cmd/gts that call (*ioDelegate).TryCache."),
+}
+
 NOT_APPLICABLE = {
  "C06": "round-trip and denotation equalities over a recursive value domain; the only structural part (keyword tables) is settled by any single test; join reduction needs the meaning of each Push path (symbolic execution, a different technique family)",
  "C08": "segment-walking and offset arithmetic over runtime lengths; no clause whose truth is in the shape of the code",
